@@ -70,6 +70,7 @@ _S = {}
 # mechanism keys of the genuine defects this driver knows how to recognise ("explained-by" classification below)
 K_POW = "C10:partial-resolution-pow-number-base-symbolic-exponent-TypeError"
 K_PHFSIM = "C10:parameter-names-missing:PhasedFSimGate"
+K_ZIPLONGEST = "C10:sweep-add-flattens-ZipLongest-operand"
 
 
 # =============================================================================================== helpers
@@ -182,7 +183,7 @@ def setup(ctx):
     orig_fail, seen = ctx.fail, {}
 
     def fail(mech, msg, **witness):
-        if mech in (K_POW, K_PHFSIM):
+        if mech in (K_POW, K_PHFSIM, K_ZIPLONGEST):
             seen[mech] = seen.get(mech, 0) + 1
             if seen[mech] > 3:
                 ctx.event("repeat:" + mech)
@@ -322,7 +323,8 @@ def sec_expr(ctx, rng, case):
         if not ok:
             return
         gn = cirq.parameter_names(got)
-        ctx.check(gn == names, "unrelated-untouched", "C10:unrelated:names", "%s != %s" % (sorted(gn), sorted(names)), **wit)
+        # (rebuilding the tree with floats may cancel a symbol algebraically, so the names can only shrink; the value decides)
+        ctx.check(gn <= names, "unrelated-untouched", "C10:unrelated:names", "%s not within %s" % (sorted(gn), sorted(names)), **wit)
         try:
             v = EV.evaluate(got, env)
         except EV.OutOfDomain:
@@ -789,7 +791,7 @@ def sec_gates(ctx, rng, case):
     ok, g4 = guarded_partial(ctx, lambda: cirq.resolve_parameters(g, {"zz": 0.5}), m.exprs(), (), "unrelated-untouched", "gate " + fam, **wit)
     if ok:
         if fam != "PhasedFSim":
-            ctx.check(set(cirq.parameter_names(g4)) == names, "unrelated-untouched", "C10:unrelated:names:" + fam, "", **wit)
+            ctx.check(set(cirq.parameter_names(g4)) <= names, "unrelated-untouched", "C10:unrelated:names:" + fam, "", **wit)
         matrix_ok(cirq.resolve_parameters(g4, full), ref, "unrelated-then-full")
     # recursive chain through a gate, and resolver composition
     defs = _chain_defs(rng, env, names)
@@ -1149,7 +1151,21 @@ def sec_circuitop(ctx, rng, case):
         _names_check(ctx, co, names, "circuit-operation", set(), **wit)
     ctx.check(cirq.is_parameterized(co) == bool(names), "is_parameterized", ph_key("C10:is-parameterized:circuit-operation"),
               "is_parameterized=%s, model names %s" % (cirq.is_parameterized(co), sorted(names)), **wit)
-    outer = mk_resolver(rng, {k: env[k] for k in sorted(names)} if rng.random() < 0.5 else dict(env))
+    # when a substitution makes symbols cancel (b -> c in c - b), sympy leaves a sympy number behind, which Cirq documents
+    # as "parameterized without free symbols"; binding only the named symbols is then not a full resolution
+    cancels = False
+    for m in flat:
+        for p in m.params:
+            if isinstance(p, sympy.Basic):
+                e, expect = p, EV.free_names(p)
+                for mp in substs:
+                    e = EV.substitute(e, mp)
+                    expect = set().union(*[EV.free_names(mp[x]) if x in mp else {x} for x in expect]) if expect else set()
+                if (EV.free_names(e) if isinstance(e, sympy.Basic) else set()) != expect:
+                    cancels = True
+    if cancels:
+        ctx.event("circuit-op-substitution-cancels-symbols")
+    outer = mk_resolver(rng, {k: env[k] for k in sorted(names)} if (rng.random() < 0.5 and not cancels) else dict(env))
     emb = case % 2 == 0
     if emb:  # resolve through an enclosing circuit
         host = cirq.Circuit(cirq.Moment([co]), cirq.Moment([cirq.X(cirq.LineQubit(0)) ** S(syms[0])]))
@@ -1426,8 +1442,20 @@ def sec_sweeps(ctx, rng, case):
         gp, gz = [_norm_resolver(r) for r in prod], [_norm_resolver(r) for r in zp]
         ctx.check(isinstance(prod, cirq.Product) and len(prod) == len(wp) and _same_points(gp, wp), "sweep-operators", "C10:sweep-mul",
                   lambda: "a*b enumerates %r, the Cartesian product is %r" % (gp[:5], wp[:5]), other=Mb.describe(), **wit)
-        ctx.check(isinstance(zp, cirq.Zip) and len(zp) == len(wz) and _same_points(gz, wz), "sweep-operators", "C10:sweep-add",
-                  lambda: "a+b enumerates %r, the zip is %r" % (gz[:5], wz[:5]), other=Mb.describe(), **wit)
+        if ("zip", []) not in (tuple(spec[:2]), tuple(spec_b[:2])):  # a Zip of no sweeps has no documented meaning as an operand
+            ok_add = isinstance(zp, cirq.Zip) and len(zp) == len(wz) and _same_points(gz, wz)
+            mech = "C10:sweep-add"
+            if not ok_add and "ziplongest" in (spec[0], spec_b[0]):
+                # explained-by: '+' splices the components of a ZipLongest operand into a plain Zip (isinstance(x, Zip) is
+                # true for the subclass), which stops at the shortest component instead of zipping with the padded sweep
+                parts = []
+                for sp, mm in ((spec, M), (spec_b, Mb)):
+                    parts.extend(mm.sweeps if sp[0] in ("zip", "ziplongest") else [mm])
+                if _same_points(gz, SM.Zip(*parts).points()):
+                    mech = K_ZIPLONGEST
+            ctx.check(ok_add, "sweep-operators", mech,
+                      lambda: "a+b enumerates %d points %r, zipping a with b gives %d points %r" % (len(gz), gz[:4], len(wz), wz[:4]), other=Mb.describe(),
+                      a=repr(s)[:300], b=repr(sb)[:300], **wit)
         ctx.check([str(k) for k in prod.keys] == M.keys() + Mb.keys() and [str(k) for k in zp.keys] == M.keys() + Mb.keys(), "sweep-keys", "C10:sweep-keys:operators", "", **wit)
     ctx.distinct(("sweep", desc, tuple(pts[:3])), nontrivial=n >= 2 or _spec_depth(spec) >= 2)
     ctx.sample({"sweep": desc, "len": n, "first": pts[:3]})
@@ -1560,11 +1588,321 @@ def sec_sweepable(ctx, rng, case):
                 ctx.ok("sweepable-rejects")
         ctx.distinct(("sweepable", "rejects"), nontrivial=False)
 
+
+# =============================================================================================== 6. simulate_sweep / run_sweep
+def _gen_sweep_over(rng, syms, max_points=6):
+    """A (cirq sweep, list of env dicts) over exactly `syms`, built from Points/Linspace leaves under Product/Zip."""
+    import cirq
+    import sympy
+
+    leaves, mleaves = [], []
+    for s_ in syms:
+        n = int(rng.integers(1, 4))
+        key = sympy.Symbol(s_) if rng.random() < 0.4 else s_
+        if rng.random() < 0.5:
+            vals = [XG.gen_value(rng) for _ in range(n)]
+            leaves.append(cirq.Points(key, vals))
+            mleaves.append(SM.Points(s_, vals))
+        else:
+            a, b = XG.gen_value(rng), XG.gen_value(rng)
+            leaves.append(cirq.Linspace(key, a, b, n))
+            mleaves.append(SM.Linspace(s_, a, b, n))
+    kind = int(rng.integers(3))
+    if kind == 0 or len(leaves) == 1:
+        sw, M = cirq.Product(*leaves), SM.Product(*mleaves)
+    elif kind == 1:
+        sw, M = cirq.Zip(*leaves), SM.Zip(*mleaves)
+    else:
+        sw, M = cirq.Product(leaves[0], cirq.Zip(*leaves[1:])), SM.Product(mleaves[0], SM.Zip(*mleaves[1:]))
+    pts = M.points()
+    if len(pts) > max_points:
+        sw, pts = sw[:max_points], pts[:max_points]
+        if rng.random() < 0.5:
+            sw = list(sw)  # a plain list of resolvers is a Sweepable too
+    return sw, [dict(p) for p in pts]
+
+
+def _ref_state(moments, nq, envv, initial):
+    psi = np.zeros(2 ** nq, dtype=complex)
+    psi[initial] = 1.0
+    dims = [2] * nq
+    for ops in moments:
+        for m in ops:
+            psi = L.apply_to_state(psi, m.ref(envv), list(m.wires), dims)
+    return psi
+
+
+def sec_simsweep(ctx, rng, case):
+    import cirq
+
+    nq = int(rng.integers(2, 5))
+    dims = [2] * nq
+    syms = XG.SYMS[:int(rng.integers(1, 4))]
+    sweep, envs = _gen_sweep_over(rng, syms)
+    if not envs:
+        ctx.reject("empty-sweep")
+        return
+    env0 = envs[0]
+    pool = [s for s in _S["allspecs"] if 1 <= len(s.shape) <= nq and max(s.shape) == 2]
+    depth_total = int(rng.integers(2, 9))
+    first_param = int(rng.integers(0, depth_total))  # the first parameterized operation appears here
+    pre = gen_model_circuit(rng, dims, first_param, [], env0, p_sym=0.0, p_tag=0.0, pool=pool)
+    post = gen_model_circuit(rng, dims, depth_total - first_param, syms, env0, p_sym=0.6, general=False, p_tag=0.1, pool=pool)
+    if not any(m.names() for ops in post for m in ops):
+        sp = [s for s in _S["gspecs"] if s.shape == (2,)][int(rng.integers(4))]
+        post[0] = [gen_symbolic_mop(rng, sp, syms, env0, [int(rng.integers(nq))], False, False)]
+    moments = pre + post
+    try:
+        refs = [_ref_state(moments, nq, e, 0) for e in envs]
+    except EV.OutOfDomain:
+        ctx.reject("expression-out-of-real-domain")
+        return
+    qs = [cirq.LineQubit(i) for i in range(nq)]
+    C = build_circuit(moments, dims)
+    # a classical flag qubit: only X gates and a measurement with a certain outcome, at a random position
+    flag = cirq.LineQubit(nq)
+    with_flag = case % 3 == 0
+    flag_bit = 0
+    if with_flag:
+        pos_x = int(rng.integers(0, len(C) + 1))
+        C.insert(pos_x, cirq.Moment([cirq.X(flag)]))
+        flag_bit = 1
+        pos_m = int(rng.integers(pos_x + 1, len(C) + 1))
+        C.insert(pos_m, cirq.Moment([cirq.measure(flag, key="flag")]))
+        order = qs + [flag]
+    else:
+        order = qs
+    initial = int(rng.integers(0, 2 ** nq)) if rng.random() < 0.4 else 0
+    if initial:
+        refs = [_ref_state(moments, nq, e, initial) for e in envs]
+    dtype = np.complex64 if case % 4 != 1 else np.complex128
+    split = case % 5 != 2
+    sim = cirq.Simulator(dtype=dtype, split_untangled_states=split, seed=int(rng.integers(1 << 30)))
+    init_full = (initial << 1) if with_flag else initial
+    wit = dict(circuit=[[m.show() for m in ops] for ops in moments], first_parameterized_moment=first_param, points=envs, initial=initial,
+               dtype=str(np.dtype(dtype)), split=split, flag=with_flag)
+    results = sim.simulate_sweep(C, sweep, qubit_order=order, initial_state=init_full)
+    ctx.check(len(results) == len(envs), "simulate_sweep-len", "C10:simulate_sweep:count", "%d results for %d assignments" % (len(results), len(envs)), **wit)
+    tol_pair = 1e-5 if dtype == np.complex64 else 1e-7
+    dim = 2 ** len(order)
+    tol_ref = 2e-5 * math.sqrt(dim) if dtype == np.complex64 else 1e-7
+    sw_list = list(cirq.to_resolvers(sweep))
+    for i, (res, e) in enumerate(zip(results, envs)):
+        got = np.asarray(res.final_state_vector)
+        single = sim.simulate(C, sw_list[i], qubit_order=order, initial_state=init_full)
+        one = np.asarray(single.final_state_vector)
+        ctx.check(got.dtype == np.dtype(dtype) and L.allclose(got, one, tol_pair), "simulate_sweep[i]==simulate(s[i])", "C10:simulate_sweep!=simulate",
+                  lambda: "assignment %d: sweep result differs from the single simulation by %.3g" % (i, L.maxdiff(got, one)), index=i, **wit)
+        want = refs[i]
+        if with_flag:
+            want = np.kron(want, np.array([0.0, 1.0]))
+        ctx.check(L.allclose(got, want, tol_ref), "simulate_sweep==numpy", "C10:simulate_sweep!=catalogue-evolution",
+                  lambda: "assignment %d: sweep state differs from the numpy evolution with the numbers substituted by %.3g" % (i, L.maxdiff(got, want)), index=i, **wit)
+        pn = {str(k): float(v) for k, v in res.params.param_dict.items()}
+        ctx.check(all(abs(pn.get(k, 1e99) - v) <= 1e-12 * max(1, abs(v)) for k, v in e.items()) and len(pn) == len(e), "sweep-result-params",
+                  "C10:simulate_sweep:params", "result %d carries params %r, assignment is %r" % (i, pn, e), **wit)
+        if with_flag:
+            mm, ms = res.measurements, single.measurements
+            ctx.check(list(mm) == ["flag"] and mm["flag"].tolist() == [flag_bit] and ms["flag"].tolist() == [flag_bit], "simulate_sweep-measurements",
+                      "C10:simulate_sweep:measurements", "measurements %r / %r, expected flag=%d" % (mm, ms, flag_bit), **wit)
+    ctx.distinct(("simsweep", tuple(tuple(m.show() for m in ops) for ops in moments), len(envs), first_param), nontrivial=len(envs) >= 2)
+    ctx.sample({"circuit": wit["circuit"], "first_parameterized_moment": first_param, "points": envs[:3]})
+
+
+def sec_runsweep(ctx, rng, case):
+    """Deterministic circuits: X**(integer-valued expression), CNOT, SWAP on basis states; every repetition must give
+    the bits of the classical model, for every assignment of the sweep, and equal Simulator.run on that assignment."""
+    import cirq
+    import sympy
+
+    S = sympy.Symbol
+    nq = int(rng.integers(1, 5))
+    syms = XG.SYMS[:int(rng.integers(1, 4))]
+    pts = {s_: [float(x) for x in rng.integers(0, 4, size=int(rng.integers(1, 4)))] for s_ in syms}
+    leaves = [cirq.Points(S(s_) if rng.random() < 0.3 else s_, pts[s_]) for s_ in syms]
+    mleaves = [SM.Points(s_, pts[s_]) for s_ in syms]
+    if rng.random() < 0.5 or len(syms) == 1:
+        sweep, M = cirq.Product(*leaves), SM.Product(*mleaves)
+    else:
+        sweep, M = cirq.Zip(*leaves), SM.Zip(*mleaves)
+    envs = [dict(p) for p in M.points()][:8]
+    sweep = sweep[:8] if len(M.points()) > 8 else sweep
+    qs = cirq.LineQubit.range(nq)
+    ops, model = [], []  # model: list of ("x", wire, expr|int) | ("cx", c, t) | ("swap", a, b) | ("m", key, wires)
+    nfirst = int(rng.integers(0, 4))
+    nkeys = 0
+    for step in range(int(rng.integers(2, 10))):
+        r = rng.random()
+        w = int(rng.integers(nq))
+        if r < 0.45:
+            if step < nfirst:
+                k = int(rng.integers(0, 3))
+                ops.append(cirq.X(qs[w]) ** k)
+                model.append(("x", w, k))
+            else:
+                form = int(rng.integers(4))
+                a = S(syms[int(rng.integers(len(syms)))])
+                b = S(syms[int(rng.integers(len(syms)))])
+                e = [a, a + b, 2 * a + 1, a * b][form]
+                ops.append(cirq.X(qs[w]) ** e)
+                model.append(("x", w, e))
+        elif r < 0.65 and nq > 1:
+            c, t = [int(x) for x in rng.permutation(nq)[:2]]
+            ops.append(cirq.CNOT(qs[c], qs[t]))
+            model.append(("cx", c, t))
+        elif r < 0.75 and nq > 1:
+            c, t = [int(x) for x in rng.permutation(nq)[:2]]
+            ops.append(cirq.SWAP(qs[c], qs[t]))
+            model.append(("swap", c, t))
+        elif r < 0.9:
+            k = int(rng.integers(1, nq + 1))
+            ws = [int(x) for x in rng.permutation(nq)[:k]]
+            key = "m%d" % nkeys
+            nkeys += 1
+            ops.append(cirq.measure(*[qs[x] for x in ws], key=key))
+            model.append(("m", key, ws))
+    key = "final"
+    ops.append(cirq.measure(*qs, key=key))
+    model.append(("m", key, list(range(nq))))
+    C = cirq.Circuit(ops)
+    reps = int(rng.integers(1, 6))
+    sim = cirq.Simulator(seed=int(rng.integers(1 << 30)))
+    wit = dict(circuit=[(m[0], str(m[1]), str(m[2])) for m in model], points=envs, repetitions=reps)
+    results = sim.run_sweep(C, sweep, repetitions=reps)
+    ctx.check(len(results) == len(envs), "run_sweep-len", "C10:run_sweep:count", "%d results for %d assignments" % (len(results), len(envs)), **wit)
+    sw_list = list(cirq.to_resolvers(sweep))
+    for i, (res, e) in enumerate(zip(results, envs)):
+        bits = [0] * nq
+        want = {}
+        for m in model:
+            if m[0] == "x":
+                v = m[2] if isinstance(m[2], int) else EV.evaluate(m[2], e)
+                if int(round(v)) % 2:
+                    bits[m[1]] ^= 1
+            elif m[0] == "cx":
+                bits[m[2]] ^= bits[m[1]]
+            elif m[0] == "swap":
+                bits[m[1]], bits[m[2]] = bits[m[2]], bits[m[1]]
+            else:
+                want[m[1]] = [bits[x] for x in m[2]]
+        got = {k: v for k, v in res.measurements.items()}
+        ok = set(got) == set(want) and all(np.asarray(got[k]).shape == (reps, len(want[k])) and (np.asarray(got[k]) == np.array(want[k])[None, :]).all() for k in want)
+        ctx.check(ok, "run_sweep-deterministic", "C10:run_sweep!=classical-model",
+                  lambda: "assignment %d %r: measured %r, the classical model gives %r" % (i, e, {k: np.asarray(v).tolist() for k, v in got.items()}, want), index=i, **wit)
+        single = sim.run(C, sw_list[i], repetitions=reps)
+        same = set(single.measurements) == set(got) and all((np.asarray(single.measurements[k]) == np.asarray(got[k])).all() for k in got)
+        ctx.check(same, "run_sweep[i]==run(s[i])", "C10:run_sweep!=run", "assignment %d: run_sweep and run disagree" % i, index=i, **wit)
+        pn = {str(k): float(v) for k, v in res.params.param_dict.items()}
+        ctx.check(pn == {k: float(v) for k, v in e.items()}, "sweep-result-params", "C10:run_sweep:params", "result %d carries %r, assignment is %r" % (i, pn, e), **wit)
+    ctx.distinct(("runsweep", tuple(wit["circuit"]), tuple(tuple(sorted(e.items())) for e in envs)), nontrivial=len(envs) >= 2)
+    ctx.sample({"circuit": wit["circuit"], "points": envs[:3]})
+
+
+# =============================================================================================== 7. flattening
+def sec_flatten(ctx, rng, case):
+    import cirq
+    import sympy
+
+    S = sympy.Symbol
+    nw = int(rng.integers(1, 4))
+    dims = [2] * nw
+    syms = XG.SYMS[:int(rng.integers(1, 4))]
+    sweep, envs = _gen_sweep_over(rng, syms, max_points=4)
+    if not envs:
+        ctx.reject("empty-sweep")
+        return
+    pool = [s for s in _S["allspecs"] if 1 <= len(s.shape) <= nw and max(s.shape) == 2]
+    moments = gen_model_circuit(rng, dims, int(rng.integers(1, 5)), syms, envs[0], p_sym=0.8, general=True, allow_sym_exponent=True, p_tag=0.0, pool=pool)
+    collide = case % 8 == 7
+    if collide:
+        # a real symbol whose name is exactly what flatten would call the expression a + 1
+        xs = [s_ for s_ in _S["gspecs"] if s_.name == "XPow"][0]
+        moments.append([MOp(xs, [S("a") + 1, 0.0], [0])])
+        moments.append([MOp(xs, [S("<a + 1>"), 0.0], [0])])
+        if rng.random() < 0.5:
+            moments.reverse()
+        envs = [dict(e, **{"<a + 1>": XG.gen_value(rng)}) for e in envs]
+        sweep = [cirq.ParamResolver(e) for e in envs]
+    flat_ops = [m for ops in moments for m in ops]
+    if not any(m.names() for m in flat_ops):
+        ctx.reject("nothing-symbolic")
+        return
+    good_envs = []
+    for e in envs:
+        try:
+            for m in flat_ops:
+                m.ref(e)
+            good_envs.append(e)
+        except EV.OutOfDomain:
+            pass
+    if not good_envs:
+        ctx.reject("expression-out-of-real-domain")
+        return
+    C = build_circuit(moments, dims)
+    if case % 3 == 1:
+        C = C.freeze()
+    wit = dict(circuit=[[m.show() for m in ops] for ops in moments], points=envs)
+    c_flat, emap = cirq.flatten(C)
+    # every expression of the original is a key, every value is a plain symbol, the flat circuit names exactly those symbols
+    vals_ok = all(isinstance(v, sympy.Symbol) for v in emap.values()) and len(set(emap.values())) == len(emap)
+    ctx.check(isinstance(emap, cirq.ExpressionMap) and vals_ok, "flatten-map", "C10:flatten:map-values", "expression map %r" % (emap,), **wit)
+    has_ph = any(m.spec.name == "PhasedFSim" and m.gate_names() for m in flat_ops)
+    if not has_ph:
+        ctx.check(set(cirq.parameter_names(c_flat)) == {v.name for v in emap.values()}, "flatten-map", "C10:flatten:flat-names",
+                  "flattened circuit names %s, map values %s" % (sorted(cirq.parameter_names(c_flat)), sorted(v.name for v in emap.values())), **wit)
+    # each parameter of the flattened circuit is a number or a bare symbol: resolving it with a resolver that only knows
+    # the new symbols must leave nothing behind
+    sw_list = list(cirq.to_resolvers(sweep))
+    tsweep = emap.transform_sweep(sweep)
+    ctx.check(isinstance(tsweep, cirq.Sweep) and len(tsweep) == len(envs), "flatten-sweep", "C10:flatten:transform_sweep-len", "%d vs %d" % (len(tsweep), len(envs)), **wit)
+    c_flat2, sweep2 = cirq.flatten_with_sweep(C, sweep)
+    for i, e in enumerate(envs):
+        if e not in good_envs:
+            continue
+        tp = emap.transform_params(sw_list[i])
+        # values of the new symbols = ordinary algebra on the formulas
+        okv = True
+        for formula, sym in emap.items():
+            want = EV.evaluate(formula, e)
+            got = tp.get(sym, None)
+            okv = okv and got is not None and _is_plain_number(got) and _close(got, want, 100)
+        ctx.check(okv and len(tp) == len(emap), "flatten-params", "C10:flatten:transform_params",
+                  lambda: "transform_params(%r) = %r for map %r" % (e, tp, emap), index=i, **wit)
+        ts_i = {str(k): v for k, v in tsweep[i].param_dict.items()}
+        ctx.check(len(ts_i) == len(tp) and all(_close(ts_i.get(k.name, 1e99), v, 100) for k, v in tp.items()), "flatten-sweep", "C10:flatten:transform_sweep!=transform_params",
+                  "transform_sweep[%d] = %r, transform_params = %r" % (i, ts_i, tp), index=i, **wit)
+        for how, cf, res in (("flatten+transform_params", c_flat, tp), ("flatten+transform_sweep", c_flat, tsweep[i]),
+                             ("flatten_with_sweep", c_flat2, sweep2[i]), ("flatten_with_params", None, None)):
+            if how == "flatten_with_params":
+                cf, res = cirq.flatten_with_params(C, sw_list[i])
+            R = cirq.resolve_parameters(cf, res)
+            allok = True
+            for j, ops in enumerate(moments):
+                allok = check_resolved_ops(ctx, list(R[j].operations), ops, dims, e, how, moment=j, index=i, **wit) and allok
+            ctx.check(allok, "flatten-gate-by-gate", "C10:flatten:" + how, "resolve(flat, transformed assignment) differs gate by gate from the original with the numbers substituted", index=i, **wit)
+        Ro = cirq.resolve_parameters(C, sw_list[i])
+        for j, ops in enumerate(moments):
+            check_resolved_ops(ctx, list(Ro[j].operations), ops, dims, e, "original", moment=j, index=i, **wit)
+    # single gates and operations flatten too
+    m0 = [m for m in flat_ops if m.gate_names()][0]
+    g = m0.gate()
+    gf, gmap = cirq.flatten(g)
+    e = good_envs[0]
+    r0 = {k: e[k] for k in e}
+    u = cirq.unitary(cirq.resolve_parameters(gf, gmap.transform_params(r0)), None)
+    ctx.check(u is not None and L.allclose(u, m0.ref(e), ATOL_M), "flatten-gate-by-gate", "C10:flatten:gate:" + m0.spec.name, "flattened gate differs", op=m0.show(), **wit)
+    ctx.distinct(("flatten", tuple(tuple(m.show() for m in ops) for ops in moments), len(envs)), nontrivial=any(not isinstance(k, sympy.Symbol) for k in emap))
+    ctx.sample({"circuit": wit["circuit"], "map": {str(k): str(v) for k, v in emap.items()}})
+
+# (name, function, quick cases, thorough cases, time weight ~ expected seconds of the quick tier over all shards)
 SECTIONS = [
-    ("expr", sec_expr, 12000, 300000, 3.0),
-    ("gates", sec_gates, 4000, 100000, 3.0),
-    ("circuits", sec_circuits, 1500, 40000, 3.0),
-    ("circuitop", sec_circuitop, 1500, 40000, 2.0),
-    ("sweeps", sec_sweeps, 3000, 75000, 1.5),
-    ("sweepable", sec_sweepable, 1400, 35000, 0.5),
+    ("expr", sec_expr, 6000, 150000, 150.0),
+    ("gates", sec_gates, 4000, 100000, 35.0),
+    ("circuits", sec_circuits, 1200, 30000, 32.0),
+    ("circuitop", sec_circuitop, 1200, 30000, 13.0),
+    ("sweeps", sec_sweeps, 5000, 125000, 7.0),
+    ("sweepable", sec_sweepable, 1400, 35000, 1.0),
+    ("simsweep", sec_simsweep, 1200, 30000, 20.0),
+    ("runsweep", sec_runsweep, 600, 15000, 10.0),
+    ("flatten", sec_flatten, 900, 22500, 17.0),
 ]
